@@ -31,7 +31,9 @@ Pool == <<
   PF("m2", <<X("t", <<>>)>>, <<>>),                             \* 18 extension without relations
   PF("m3", <<X("t", <<"R", "r">>)>>, <<"C", "c">>),             \* 19 names that differ only in case: several conflicts whose order
   PF("m2", <<X("t", <<"r", "R", "s">>)>>, <<"c", "C">>),        \* 20 a case-blind sort leaves to map iteration
-  PF("m3", <<X("t", <<"s", "r">>), X("u", <<"s">>)>>, <<>>) >>  \* 21 rendered with continuation lines that begin with `type with ...` (FilesOf sets cont)
+  PF("m3", <<X("t", <<"s", "r">>), X("u", <<"s">>)>>, <<>>),    \* 21 rendered with continuation lines that begin with `type with ...` (FilesOf sets cont)
+  PF("m1", <<T("c", <<"r">>)>>, <<"t">>),                       \* 22 a type called like the condition of 2 / 10 / 12 / 13 and a condition called like a type: different name spaces, no conflict
+  PF("#",  <<>>, <<>>) >>                                       \* 23 comment and blank lines only: does not parse as a module
 
 K == Len(PoolSeq)
 RECURSIVE Pow(_, _)
